@@ -200,7 +200,9 @@ def enum_cases(tier):
             for i, ranks in enumerate(ops):
                 shape = [vs[r] for r in ranks]
                 tree = [] if (dset == 2 and i == len(ops) - 1) else fixed_tree(shape, i, dset)
-                operands.append({"rank_ids": list(ranks), "shape": shape, "default": 0, "tree": tree, "auth": True})
+                operands.append({"rank_ids": list(ranks), "shape": shape, "default": 0, "tree": tree,
+                                 # the second operand set has no declared shapes (the ranks estimate them)
+                                 "auth": dset != 1})
             for f in all_flows(vs, multi):
                 spec = {"vars": vs, "operands": operands, "out": out}
                 spec.update(f)
